@@ -7,6 +7,65 @@ open B CaseModel
 
 namespace Compound
 
+-- the re-join guard on regular renderings ---------------------------------------------------------------------
+
+/-- text after the first word of a `sep`-joined word list -/
+def tailOf (sep : Bytes) : List Bytes → Bytes
+  | [] => []
+  | t :: ts => sep ++ t ++ tailOf sep ts
+
+theorem joinWith_eq_tailOf (sep : Bytes) : ∀ (t : Bytes) (ts : List Bytes), joinWith sep (t :: ts) = t ++ tailOf sep ts
+  | t, [] => by simp [joinWith, tailOf]
+  | t, u :: ts => by
+    rw [joinWith_cons_cons, joinWith_eq_tailOf sep u ts]
+    simp only [tailOf, List.append_assoc]
+
+theorem concat_eq_tailOf : ∀ (ts : List Bytes), concat ts = tailOf [] ts
+  | [] => rfl
+  | t :: ts => by rw [concat_cons, concat_eq_tailOf ts]; simp [tailOf]
+
+theorem takeWhile_gap {pre t r : Bytes} (hpre : ∀ c ∈ pre, isAlnum c = false) (hne : t ≠ [])
+    (ht : ∀ c ∈ t, isAlnum c = true) :
+    (pre ++ t ++ r).takeWhile (fun c => !isAlnum c) = pre ∧ (pre ++ t ++ r).dropWhile (fun c => !isAlnum c) = t ++ r := by
+  obtain ⟨c, cs, rfl⟩ := List.exists_cons_of_ne_nil hne
+  have hc : isAlnum c = true := ht c (List.mem_cons_self ..)
+  induction pre with
+  | nil => simp [hc]
+  | cons p pre ih =>
+    have hp : isAlnum p = false := hpre p (List.mem_cons_self ..)
+    have := ih (fun x hx => hpre x (List.mem_cons_of_mem _ hx))
+    simp only [List.cons_append, List.takeWhile, List.dropWhile, hp, Bool.not_false] at this ⊢
+    exact ⟨by rw [this.1], this.2⟩
+
+/-- one step of the token walk on `gap ++ token ++ rest` -/
+theorem gapsOk_step (sep : Bytes) (W : List (Nat × Nat)) (idx : Nat) {pre t r : Bytes} (ts : List Bytes)
+    (hpre : ∀ c ∈ pre, isAlnum c = false) (hne : t ≠ []) (ht : ∀ c ∈ t, isAlnum c = true) :
+    gapsOk sep W idx (pre ++ t ++ r) (t :: ts) =
+      ((if idx == 0 then pre.isEmpty else (insideWindow W idx || pre == sep)) && gapsOk sep W (idx + 1) r ts) := by
+  obtain ⟨h1, h2⟩ := takeWhile_gap (r := r) hpre hne ht
+  simp only [gapsOk, h1, h2, List.drop_left']
+
+/-- regular rendering: every gap is the separator, so the walk succeeds whatever the windows are -/
+theorem gapsOk_tailOf (sep : Bytes) (W : List (Nat × Nat)) (hsep : ∀ c ∈ sep, isAlnum c = false) :
+    ∀ (ts : List Bytes) (idx : Nat), (∀ t ∈ ts, t ≠ [] ∧ ∀ c ∈ t, isAlnum c = true) →
+      gapsOk sep W (idx + 1) (tailOf sep ts) ts = true
+  | [], _, _ => by simp [gapsOk, tailOf]
+  | t :: ts, idx, h => by
+    have ht := h t (List.mem_cons_self ..)
+    rw [tailOf, gapsOk_step sep W (idx + 1) ts hsep ht.1 ht.2,
+      gapsOk_tailOf sep W hsep ts (idx + 1) (fun x hx => h x (List.mem_cons_of_mem _ hx))]
+    simp
+
+theorem gapsOk_regular (sep : Bytes) (W : List (Nat × Nat)) (hsep : ∀ c ∈ sep, isAlnum c = false)
+    (t : Bytes) (ts : List Bytes) (h : ∀ x ∈ t :: ts, x ≠ [] ∧ ∀ c ∈ x, isAlnum c = true) :
+    gapsOk sep W 0 (t ++ tailOf sep ts) (t :: ts) = true := by
+  have ht := h t (List.mem_cons_self ..)
+  have := gapsOk_step sep W 0 (pre := []) (r := tailOf sep ts) ts (by simp) ht.1 ht.2
+  simp only [List.nil_append] at this
+  rw [this, gapsOk_tailOf sep W hsep ts 0 (fun x hx => h x (List.mem_cons_of_mem _ hx))]
+  simp
+
+
 /-- `pat` occurs in `toks` as a contiguous window, token by token up to ASCII case -/
 def HasWindow (toks pat : List Bytes) : Prop :=
   ∃ l w r, toks = l ++ w ++ r ∧ tokensMatch w pat = true
@@ -56,12 +115,12 @@ theorem shortcutCond_shape {rest old : Bytes} (h : shortcutCond rest old = true)
       rcases hc with (h | h) | h <;> simp [h]
   · cases hc
 
-theorem findCompound_sound {A : Acr} {ident old new : Bytes} {styles : List Style} {m : CMatch}
-    (h : findCompound A ident old new styles = some m) :
+theorem findCompoundG_sound {A : Acr} {g : Bool} {ident old new : Bytes} {styles : List Style} {m : CMatch}
+    (h : findCompoundG A g ident old new styles = some m) :
     m.full = ident ∧
     (shortcutCond (extractPrefix ident).2 old = true ∨
      HasWindow (parse A (extractPrefix ident).2) (parse A old)) := by
-  unfold findCompound at h
+  unfold findCompoundG at h
   simp only [] at h
   by_cases h1 : tokensMatch (parse A (extractPrefix ident).2) (parse A old) = true
   · simp only [h1, if_true] at h; cases h
@@ -91,12 +150,45 @@ theorem findCompound_sound {A : Acr} {ident old new : Bytes} {styles : List Styl
   by_cases hst : (!styles.contains style) = true
   · simp only [hst, if_true] at h; cases h
   simp only [hst] at h
+  by_cases hg : (g && !survivesRejoin (extractPrefix ident).2 (parse A (extractPrefix ident).2)
+      (matchedWindows (parse A old) 0 0 (parse A (extractPrefix ident).2)) style) = true
+  · simp only [hg, if_true] at h; cases h
+  simp only [hg] at h
   cases h
   refine ⟨rfl, Or.inr ?_⟩
   apply spliceAll_count A (parse A old) (parse A new) ident (extractPrefix ident).2 _ 0
   intro h0
   apply hcount
   simp [h0]
+
+theorem findCompound_sound {A : Acr} {ident old new : Bytes} {styles : List Style} {m : CMatch}
+    (h : findCompound A ident old new styles = some m) :
+    m.full = ident ∧
+    (shortcutCond (extractPrefix ident).2 old = true ∨
+     HasWindow (parse A (extractPrefix ident).2) (parse A old)) := findCompoundG_sound h
+
+/-- an answer of the matcher passed the re-join guard -/
+theorem findCompound_guard {A : Acr} {ident old new : Bytes} {styles : List Style} {m : CMatch}
+    (h : findCompound A ident old new styles = some m) (hs : shortcutCond (extractPrefix ident).2 old = false) :
+    survivesRejoin (extractPrefix ident).2 (parse A (extractPrefix ident).2)
+      (matchedWindows (parse A old) 0 0 (parse A (extractPrefix ident).2)) m.style = true := by
+  unfold findCompound findCompoundG at h
+  simp only [hs, Bool.false_eq_true, if_false] at h
+  split at h; · cases h
+  split at h; · cases h
+  split at h; · cases h
+  split at h; · cases h
+  split at h; · cases h
+  cases hinf : inferStyle A (extractPrefix ident).2 with
+  | none => simp only [hinf] at h; cases h
+  | some style =>
+    simp only [hinf] at h
+    split at h; · cases h
+    split at h
+    · cases h
+    · rename_i hg
+      cases h
+      simpa using hg
 
 theorem mem_insertM {m x : M} : ∀ {l : List M}, x ∈ insertM m l ↔ x = m ∨ x ∈ l
   | [] => by simp [insertM]
@@ -377,6 +469,22 @@ theorem extractPrefix_lead {lead rest : Bytes} {c : UInt8} (hl : lead = [] ∨ l
     · rename_i h1 h2; exact absurd rfl (h2 _)
   · rfl
 
+theorem survivesRejoin_sep {d : UInt8} (hd : d = 95 ∨ d = 45) {rs : List Bytes} (h2 : 2 ≤ rs.length)
+    (ha : AlphaWords rs) (hne : ∀ r ∈ rs, r ≠ []) (W : List (Nat × Nat)) (st : Style) :
+    survivesRejoin (joinWith [d] rs) rs W st = true := by
+  have f1 : contains (joinWith [d] rs) 95 = (d == 95) := contains_joinWith (by decide) h2 ha
+  have f2 : contains (joinWith [d] rs) 45 = (d == 45) := contains_joinWith (by decide) h2 ha
+  obtain ⟨t, ts, rfl⟩ := List.exists_cons_of_ne_nil (ne_nil_of_two h2)
+  have hw : ∀ x ∈ t :: ts, x ≠ [] ∧ ∀ c ∈ x, isAlnum c = true :=
+    fun x hx => ⟨hne x hx, fun c hc => by have := ha x hx c hc; simp only [isAlnum, this, Bool.true_or]⟩
+  rcases hd with rfl | rfl
+  · have := gapsOk_regular [95] W (by decide) t ts hw
+    rw [← joinWith_eq_tailOf] at this
+    simp [survivesRejoin, f1, f2, this]
+  · have := gapsOk_regular [45] W (by decide) t ts hw
+    rw [← joinWith_eq_tailOf] at this
+    simp [survivesRejoin, f1, f2, this]
+
 theorem joinTokens_sep (A : Acr) {d : UInt8} (hd : d = 95 ∨ d = 45) {rs : List Bytes} (h2 : 2 ≤ rs.length)
     (ha : AlphaWords rs) (toks : List Bytes) (st : Style) :
     joinTokens A (joinWith [d] rs) toks st = joinWith [d] toks := by
@@ -426,7 +534,7 @@ theorem findCompound_sep_core (A : Acr) (d : UInt8) (f : Bytes → Bytes) (P : B
     have := occCount_le_length hocc; omega
   have hsp := spliceAll_map A f pat rep rep (lead ++ joinWith [d] ((w0 :: ws').map f)) (joinWith [d] ((w0 :: ws').map f))
     P hpat hsty (w0 :: ws') 0 hf
-  unfold findCompound
+  unfold findCompound findCompoundG
   simp only [hex, hparse, hold, hnew]
   rw [tokensMatch_map _ _ (fun w hw => (hf w hw).1) hpat]
   simp only [hne, decide_false, Bool.false_eq_true, if_false, shortcutCond_sep hd h2' halpha]
@@ -443,7 +551,7 @@ theorem findCompound_sep_core (A : Acr) (d : UInt8) (f : Bytes → Bytes) (P : B
   simp only [hcnt, Bool.false_eq_true, if_false, inferStyle, hdet]
   have hc : styles.contains st = true := by simp [hmem]
   simp only [hc, Bool.not_true, Bool.false_eq_true, if_false, joinTokens_sep A hd h2' halpha,
-    restoreTrailing_alpha hcl hcla]
+    restoreTrailing_alpha hcl hcla, survivesRejoin_sep hd h2' halpha hwne, Bool.and_false]
   rw [hl]
   rfl
 
@@ -606,6 +714,17 @@ theorem getLast?_concat : ∀ (rs : List Bytes), rs ≠ [] → (∀ r ∈ rs, r 
     rw [concat_cons, List.getLast?_append, hc]
     rfl
 
+theorem survivesRejoin_pascal {rs : List Bytes} (hne0 : rs ≠ []) (ha : AlphaWords rs) (hne : ∀ r ∈ rs, r ≠ [])
+    (W : List (Nat × Nat)) : survivesRejoin (concat rs) rs W .pascal = true := by
+  obtain ⟨g1, g2, g3, g4, _, _⟩ := concat_flags ha (up := rs.any (fun r => r.any isUpper))
+    (lo := rs.any (fun r => r.any isLower)) rfl rfl
+  obtain ⟨t, ts, rfl⟩ := List.exists_cons_of_ne_nil hne0
+  have hw : ∀ x ∈ t :: ts, x ≠ [] ∧ ∀ c ∈ x, isAlnum c = true :=
+    fun x hx => ⟨hne x hx, fun c hc => by have := ha x hx c hc; simp only [isAlnum, this, Bool.true_or]⟩
+  have := gapsOk_regular [] W (by simp) t ts hw
+  rw [← concat_eq_tailOf, ← concat_cons] at this
+  simp [survivesRejoin, g1, g2, g3, g4, this]
+
 /-- PascalCase identifiers: `lead` + capitalised words, term anywhere -/
 theorem findCompound_pascal_core {A : Acr} (hA : AcrOk A) (hS : AcrStable A)
     {lead : Bytes} {ws pat rep : List Bytes} {old new : Bytes} {styles : List Style}
@@ -665,7 +784,7 @@ theorem findCompound_pascal_core {A : Acr} (hA : AcrOk A) (hS : AcrStable A)
   have hsp := spliceAll_concat A capitalizeFirst pat rep rep (lead ++ concat ((w0 :: ws').map capitalizeFirst))
     (concat ((w0 :: ws').map capitalizeFirst)) IsCap (fun p hp => lower_of_lower (hpat p hp).2) hsty (w0 :: ws') 0
     (fun w hw => ⟨lower_capitalizeFirst (hl w hw).2, isCap_capitalizeFirst (hws w hw)⟩)
-  unfold findCompound
+  unfold findCompound findCompoundG
   simp only [hex, hparse, hold, hnew]
   rw [tokensMatch_map _ _ (fun w hw => lower_capitalizeFirst (hl w hw).2) (fun p hp => lower_of_lower (hpat p hp).2)]
   have hsc : shortcutCond (concat ((w0 :: ws').map capitalizeFirst)) old = false := by
@@ -689,6 +808,297 @@ theorem findCompound_pascal_core {A : Acr} (hA : AcrOk A) (hS : AcrStable A)
   simp only [hpe, hre, List.isEmpty_cons, List.map_cons, Bool.or_self, Bool.false_eq_true, if_false]
   rw [← List.map_cons, hcnt]
   simp only [Bool.false_eq_true, if_false, inferStyle, hdet, hc, Bool.not_true, hjoin, hsp.1,
-    restoreTrailing_alpha hcl hcla]
+    restoreTrailing_alpha hcl hcla, survivesRejoin_pascal hne' halpha hwne, Bool.and_false]
+
+theorem longestVariant_foldl {s : Bytes} : ∀ (vs : List Bytes) (best : Option Bytes) (v : Bytes),
+    (∀ b, best = some b → b ≠ [] ∧ b.isPrefixOf s = true) →
+    vs.foldl (fun best v =>
+      if !v.isEmpty && v.isPrefixOf s then
+        (match best with
+         | some b => if b.length < v.length then some v else some b
+         | none => some v)
+      else best) best = some v →
+    (best = some v ∨ v ∈ vs) ∧ v ≠ [] ∧ v.isPrefixOf s = true
+  | [], best, v, hb, h => by
+    simp only [List.foldl_nil] at h
+    exact ⟨Or.inl h, hb v h⟩
+  | x :: vs, best, v, hb, h => by
+    simp only [List.foldl_cons] at h
+    have := longestVariant_foldl vs _ v (by
+      intro b hbb
+      split at hbb
+      · rename_i hx
+        simp only [Bool.and_eq_true, Bool.not_eq_true', List.isEmpty_eq_false_iff] at hx
+        cases best with
+        | none => simp only [Option.some.injEq] at hbb; subst hbb; exact hx
+        | some b0 =>
+          simp only at hbb
+          split at hbb
+          · simp only [Option.some.injEq] at hbb; subst hbb; exact hx
+          · simp only [Option.some.injEq] at hbb; subst hbb; exact hb _ rfl
+      · exact hb b hbb) h
+    refine ⟨?_, this.2⟩
+    rcases this.1 with h1 | h1
+    · split at h1
+      · cases best with
+        | none => simp only [Option.some.injEq] at h1; subst h1; exact Or.inr (List.mem_cons_self ..)
+        | some b0 =>
+          simp only at h1
+          split at h1
+          · simp only [Option.some.injEq] at h1; subst h1; exact Or.inr (List.mem_cons_self ..)
+          · exact Or.inl h1
+      · exact Or.inl h1
+    · exact Or.inr (List.mem_cons_of_mem _ h1)
+
+theorem longestVariant_sound {vs : List Bytes} {s v : Bytes} (h : longestVariant vs s = some v) :
+    v ∈ vs ∧ v ≠ [] ∧ v.isPrefixOf s = true := by
+  have := longestVariant_foldl vs none v (by intro b hb; cases hb) h
+  rcases this.1 with h1 | h1
+  · cases h1
+  · exact ⟨h1, this.2⟩
+
+/-- every hit of the exact pass is a (non-empty) variant, located where the hit says -/
+theorem scanExact_sound {vs : List Bytes} : ∀ (cs : Bytes) (skip pos s e : Nat), (s, e) ∈ scanExact vs skip pos cs →
+    ∃ v ∈ vs, v ≠ [] ∧ pos ≤ s ∧ e = s + v.length ∧ v.isPrefixOf (cs.drop (s - pos)) = true
+  | [], _, _, _, _, h => by simp [scanExact] at h
+  | c :: cs, skip + 1, pos, s, e, h => by
+    rw [scanExact] at h
+    obtain ⟨v, hv, hne, hp, he, hpre⟩ := scanExact_sound cs skip (pos + 1) s e h
+    refine ⟨v, hv, hne, by omega, he, ?_⟩
+    have : s - pos = (s - (pos + 1)) + 1 := by omega
+    rw [this, List.drop_succ_cons]; exact hpre
+  | c :: cs, 0, pos, s, e, h => by
+    rw [scanExact] at h
+    split at h
+    · rename_i v hv
+      rw [List.mem_cons] at h
+      rcases h with h | h
+      · simp only [Prod.mk.injEq] at h
+        obtain ⟨rfl, rfl⟩ := h
+        obtain ⟨h1, h2, h3⟩ := longestVariant_sound hv
+        exact ⟨v, h1, h2, Nat.le_refl _, rfl, by simpa using h3⟩
+      · obtain ⟨v', hv', hne, hp, he, hpre⟩ := scanExact_sound cs _ (pos + 1) s e h
+        refine ⟨v', hv', hne, by omega, he, ?_⟩
+        have : s - pos = (s - (pos + 1)) + 1 := by omega
+        rw [this, List.drop_succ_cons]; exact hpre
+    · obtain ⟨v', hv', hne, hp, he, hpre⟩ := scanExact_sound cs _ (pos + 1) s e h
+      refine ⟨v', hv', hne, by omega, he, ?_⟩
+      have : s - pos = (s - (pos + 1)) + 1 := by omega
+      rw [this, List.drop_succ_cons]; exact hpre
+
+theorem take_of_isPrefixOf : ∀ {p s : Bytes}, p.isPrefixOf s = true → s.take p.length = p
+  | [], s, _ => by simp
+  | a :: p, [], h => by simp [List.isPrefixOf] at h
+  | a :: p, b :: s, h => by
+    simp only [List.isPrefixOf, Bool.and_eq_true, beq_iff_eq] at h
+    obtain ⟨rfl, h⟩ := h
+    simp only [List.length_cons, List.take_succ_cons, take_of_isPrefixOf h]
+
+-- identifiers with any separator multiplicity --------------------------------------------------------------------
+
+theorem tok_join_then {A : Acr} {d : UInt8} (hd : isDelim d = true) : ∀ (rs : List Bytes), rs ≠ [] →
+    (∀ r ∈ rs, Good A r) → ∀ (prev : Option UInt8) (acc : List Bytes) (rest : Bytes),
+    tok A prev [] 0 (joinWith [d] rs ++ d :: rest) acc = tok A (some d) [] 0 rest (acc ++ rs)
+  | [], h, _, _, _, _ => absurd rfl h
+  | [r], _, h, prev, acc, rest => by
+    simp only [joinWith]
+    exact tok_good_delim (h r (List.mem_singleton.mpr rfl)) hd rest prev acc
+  | a :: b :: l, _, h, prev, acc, rest => by
+    rw [joinWith_cons_cons, List.append_assoc, List.append_assoc, List.singleton_append,
+      tok_good_delim (h a (List.mem_cons_self ..)) hd,
+      tok_join_then hd (b :: l) (by simp) (fun r hr => h r (List.mem_cons_of_mem _ hr))]
+    simp only [List.append_assoc, List.singleton_append]
+
+theorem tok_delims {A : Acr} {d : UInt8} (hd : isDelim d = true) : ∀ (n : Nat) (prev : Option UInt8) (acc : List Bytes)
+    (rest : Bytes), ∃ p, tok A prev [] 0 (List.replicate n d ++ rest) acc = tok A p [] 0 rest acc ∧ (n = 0 → p = prev) ∧ (0 < n → p = some d)
+  | 0, prev, acc, rest => ⟨prev, by simp, fun _ => rfl, fun h => absurd h (by decide)⟩
+  | n + 1, prev, acc, rest => by
+    obtain ⟨p, hp, h0, h1⟩ := tok_delims hd n (some d) acc rest
+    refine ⟨some d, ?_, fun h => absurd h (by omega), fun _ => rfl⟩
+    rw [List.replicate_succ, List.cons_append, tok_delim hd, flush_nil, hp]
+    cases n with
+    | zero => rw [h0 rfl]
+    | succ k => rw [h1 (by omega)]
+
+/-- three blocks of good words, `n1 ≥ 1` / `n2 ≥ 1` delimiters between the blocks: the tokens are the words -/
+theorem parse_three_blocks {A : Acr} {d : UInt8} (hd : isDelim d = true) {xs ys zs : List Bytes}
+    (hx : xs ≠ []) (hy : ys ≠ []) (_hz : zs ≠ []) (hg : ∀ r ∈ xs ++ ys ++ zs, Good A r) {n1 n2 : Nat} (h1 : 1 ≤ n1) (h2 : 1 ≤ n2) :
+    parse A (joinWith [d] xs ++ List.replicate n1 d ++ joinWith [d] ys ++ List.replicate n2 d ++ joinWith [d] zs) =
+      xs ++ ys ++ zs := by
+  obtain ⟨k1, rfl⟩ : ∃ k, n1 = k + 1 := ⟨n1 - 1, by omega⟩
+  obtain ⟨k2, rfl⟩ : ∃ k, n2 = k + 1 := ⟨n2 - 1, by omega⟩
+  have gx : ∀ r ∈ xs, Good A r := fun r hr => hg r (by simp [hr])
+  have gy : ∀ r ∈ ys, Good A r := fun r hr => hg r (by simp [hr])
+  have gz : ∀ r ∈ zs, Good A r := fun r hr => hg r (by simp [hr])
+  simp only [parse, List.replicate_succ, List.append_assoc, List.cons_append]
+  rw [tok_join_then hd xs hx gx]
+  obtain ⟨p1, e1, _, _⟩ := tok_delims (A := A) hd k1 (some d) ([] ++ xs)
+    (joinWith [d] ys ++ d :: (List.replicate k2 d ++ joinWith [d] zs))
+  rw [e1, tok_join_then hd ys hy gy]
+  obtain ⟨p2, e2, _, _⟩ := tok_delims (A := A) hd k2 (some d) ([] ++ xs ++ ys) (joinWith [d] zs)
+  rw [e2, tok_join hd zs p2 _ gz]
+  simp
+
+/-- the token walk over a regular block of words: only the gap in front of the block is examined -/
+theorem gapsOk_block (sep : Bytes) (W : List (Nat × Nat)) (hsep : ∀ c ∈ sep, isAlnum c = false) :
+    ∀ (xs : List Bytes) (idx : Nat) (r : Bytes) (ts : List Bytes), (∀ t ∈ xs, t ≠ [] ∧ ∀ c ∈ t, isAlnum c = true) →
+      gapsOk sep W (idx + 1) (tailOf sep xs ++ r) (xs ++ ts) = gapsOk sep W (idx + 1 + xs.length) r ts
+  | [], idx, r, ts, _ => by simp [tailOf]
+  | t :: xs, idx, r, ts, h => by
+    have ht := h t (List.mem_cons_self ..)
+    have := gapsOk_step sep W (idx + 1) (pre := sep) (t := t) (r := tailOf sep xs ++ r) (xs ++ ts) hsep ht.1 ht.2
+    simp only [tailOf, List.append_assoc, List.cons_append] at this ⊢
+    rw [this, gapsOk_block sep W hsep xs (idx + 1) r ts (fun x hx => h x (List.mem_cons_of_mem _ hx))]
+    simp only [Nat.succ_ne_zero, beq_self_eq_true, Bool.or_true, Bool.true_and,
+      List.length_cons, beq_iff_eq, if_false]
+    congr 1
+    omega
+
+theorem tokensMatch_lower {w pat : List Bytes} (hw : ∀ x ∈ w, lower x = x) (hp : ∀ p ∈ pat, lower p = p) :
+    tokensMatch w pat = decide (w = pat) := by
+  have := tokensMatch_map (f := id) w pat hw hp
+  rwa [List.map_id] at this
+
+theorem mw_skip (pat : List Bytes) : ∀ (xs ys : List Bytes) (k idx : Nat), xs.length = k →
+    matchedWindows pat k idx (xs ++ ys) = matchedWindows pat 0 (idx + k) ys
+  | [], ys, k, idx, h => by simp only [List.length_nil] at h; subst h; simp
+  | x :: xs, ys, k, idx, h => by
+    cases k with
+    | zero => simp at h
+    | succ k =>
+      simp only [List.length_cons, Nat.add_right_cancel_iff] at h
+      simp only [List.cons_append, matchedWindows]
+      rw [mw_skip pat xs ys k (idx + 1) h]
+      congr 1; omega
+
+theorem mw_none {pat : List Bytes} (hp : ∀ p ∈ pat, lower p = p) : ∀ (ws : List Bytes) (idx : Nat),
+    (∀ w ∈ ws, lower w = w) → occCount pat 0 ws = 0 → matchedWindows pat 0 idx ws = []
+  | [], _, _, _ => by simp [matchedWindows]
+  | w :: ws, idx, hw, h => by
+    have hm := tokensMatch_lower (w := (w :: ws).take pat.length) (pat := pat)
+      (fun x hx => hw x (List.mem_of_mem_take hx)) hp
+    simp only [occCount] at h
+    simp only [matchedWindows, hm]
+    split at h
+    · exact absurd h (by omega)
+    · rename_i hn
+      simp only [hn, decide_false, Bool.false_eq_true, if_false]
+      exact mw_none hp ws (idx + 1) (fun x hx => hw x (List.mem_cons_of_mem _ hx)) h
+
+theorem mw_once {pat : List Bytes} (hpne : pat ≠ []) (hp : ∀ p ∈ pat, lower p = p) : ∀ (pre suf : List Bytes) (idx : Nat),
+    (∀ w ∈ pre ++ suf, lower w = w) → OccursOnce pre pat suf →
+    matchedWindows pat 0 idx (pre ++ pat ++ suf) = [(idx + pre.length, idx + pre.length + pat.length)]
+  | [], suf, idx, hw, h => by
+    obtain ⟨p, ps, rfl⟩ := List.exists_cons_of_ne_nil hpne
+    have ht : ((p :: ps) ++ suf).take (p :: ps).length = p :: ps := by simp
+    have hm : tokensMatch (p :: ps) (p :: ps) = true := by
+      rw [tokensMatch_lower hp hp]; simp
+    simp only [List.nil_append, List.cons_append] at ht ⊢
+    simp only [matchedWindows, ht, hm, if_true, List.length_nil, Nat.add_zero]
+    rw [mw_skip (p :: ps) ps suf ((p :: ps).length - 1) (idx + 1) (by simp),
+      mw_none hp suf _ (fun x hx => hw x (by simp [hx])) h.2]
+  | a :: pre, suf, idx, hw, h => by
+    have h0 := h.1 0 (by simp)
+    simp only [List.drop_zero, List.cons_append] at h0
+    have hm := tokensMatch_lower (w := (a :: (pre ++ pat ++ suf)).take pat.length) (pat := pat)
+      (fun x hx => by
+        have := List.mem_of_mem_take hx
+        simp only [List.mem_cons, List.mem_append] at this
+        rcases this with rfl | (h1 | h1) | h1
+        · exact hw _ (by simp)
+        · exact hw _ (by simp [h1])
+        · exact hp _ h1
+        · exact hw _ (by simp [h1])) hp
+    have ih := mw_once hpne hp pre suf (idx + 1) (fun x hx => hw x (by
+        simp only [List.mem_append] at hx
+        rcases hx with h1 | h1
+        · simp [h1]
+        · simp [h1])) ⟨fun i hi => by
+      have := h.1 (i + 1) (by simp only [List.length_cons]; omega)
+      simpa only [List.cons_append, List.drop_succ_cons] using this, h.2⟩
+    have e : (a :: pre) ++ pat ++ suf = a :: (pre ++ pat ++ suf) := by simp
+    rw [e]
+    simp only [matchedWindows, hm, h0, decide_false, Bool.false_eq_true, if_false, ih, List.length_cons]
+    congr 2 <;> omega
+
+theorem replicate_beq_single (n : Nat) : (List.replicate n (95 : UInt8) == [95]) = (n == 1) := by
+  match n with
+  | 0 => rfl
+  | 1 => rfl
+  | n + 2 => simp [List.replicate_succ]
+
+theorem replicate_not_alnum (n : Nat) : ∀ c ∈ List.replicate n (95 : UInt8), isAlnum c = false := by
+  intro c hc
+  rw [List.mem_replicate] at hc
+  rw [hc.2]; decide
+
+/-- the token walk over prefix words / term / suffix words with `n1`, `n2` underscores between the blocks -/
+theorem gapsOk_three_blocks (W : List (Nat × Nat)) {p0 q0 s0 : Bytes} {ps qs ss : List Bytes}
+    (h : ∀ t ∈ (p0 :: ps) ++ (q0 :: qs) ++ (s0 :: ss), t ≠ [] ∧ ∀ c ∈ t, isAlnum c = true) (n1 n2 : Nat) :
+    gapsOk [95] W 0
+      (joinWith [95] (p0 :: ps) ++ List.replicate n1 95 ++ joinWith [95] (q0 :: qs) ++ List.replicate n2 95 ++
+        joinWith [95] (s0 :: ss))
+      ((p0 :: ps) ++ (q0 :: qs) ++ (s0 :: ss)) =
+    ((insideWindow W (ps.length + 1) || n1 == 1) && (insideWindow W (ps.length + 1 + (qs.length + 1)) || n2 == 1)) := by
+  have hsep : ∀ c ∈ ([95] : Bytes), isAlnum c = false := by decide
+  have hp0 := h p0 (by simp)
+  have hq0 := h q0 (by simp)
+  have hs0 := h s0 (by simp)
+  have hps : ∀ t ∈ ps, t ≠ [] ∧ ∀ c ∈ t, isAlnum c = true := fun t ht => h t (by simp [ht])
+  have hqs : ∀ t ∈ qs, t ≠ [] ∧ ∀ c ∈ t, isAlnum c = true := fun t ht => h t (by simp [ht])
+  have hss : ∀ t ∈ ss, t ≠ [] ∧ ∀ c ∈ t, isAlnum c = true := fun t ht => h t (by simp [ht])
+  rw [joinWith_eq_tailOf, joinWith_eq_tailOf, joinWith_eq_tailOf]
+  -- block 1
+  have e1 : p0 ++ tailOf [95] ps ++ List.replicate n1 95 ++ (q0 ++ tailOf [95] qs) ++ List.replicate n2 95 ++ (s0 ++ tailOf [95] ss)
+      = [] ++ p0 ++ (tailOf [95] ps ++ (List.replicate n1 95 ++ q0 ++ (tailOf [95] qs ++ (List.replicate n2 95 ++ s0 ++ (tailOf [95] ss ++ []))))) := by
+    simp only [List.append_assoc, List.nil_append, List.append_nil]
+  have t1 : (p0 :: ps) ++ (q0 :: qs) ++ (s0 :: ss) = p0 :: (ps ++ (q0 :: (qs ++ (s0 :: (ss ++ []))))) := by simp
+  rw [e1, t1, gapsOk_step [95] W 0 _ (by simp) hp0.1 hp0.2]
+  have b1 := gapsOk_block [95] W hsep ps 0 (List.replicate n1 95 ++ q0 ++ (tailOf [95] qs ++ (List.replicate n2 95 ++ s0 ++ (tailOf [95] ss ++ []))))
+    (q0 :: (qs ++ (s0 :: (ss ++ [])))) hps
+  rw [b1, gapsOk_step [95] W _ _ (replicate_not_alnum n1) hq0.1 hq0.2]
+  have b2 := gapsOk_block [95] W hsep qs (0 + 1 + ps.length) (List.replicate n2 95 ++ s0 ++ (tailOf [95] ss ++ []))
+    (s0 :: (ss ++ [])) hqs
+  rw [b2, gapsOk_step [95] W _ _ (replicate_not_alnum n2) hs0.1 hs0.2]
+  have b3 := gapsOk_block [95] W hsep ss (0 + 1 + ps.length + 1 + qs.length) [] [] hss
+  rw [b3]
+  simp only [gapsOk, replicate_beq_single, List.isEmpty_nil, beq_self_eq_true, Bool.true_or, Bool.and_true, Bool.true_and,
+    if_true]
+  have i1 : (0 + 1 + ps.length == 0) = false := by simp
+  have i2 : (0 + 1 + ps.length + 1 + qs.length == 0) = false := by simp
+  simp only [i1, i2, Bool.false_eq_true, if_false]
+  simp only [Nat.add_comm, Nat.add_left_comm]
+
+theorem joinWith_append (d : UInt8) : ∀ (xs ys : List Bytes), xs ≠ [] → ys ≠ [] →
+    joinWith [d] (xs ++ ys) = joinWith [d] xs ++ [d] ++ joinWith [d] ys
+  | [], _, h, _ => absurd rfl h
+  | [x], y :: ys, _, _ => by simp [joinWith_cons_cons, joinWith]
+  | x :: x' :: xs, ys, _, hy => by
+    have := joinWith_append d (x' :: xs) ys (by simp) hy
+    simp only [List.cons_append] at this ⊢
+    rw [joinWith_cons_cons, this, joinWith_cons_cons]
+    simp only [List.append_assoc]
+  | [x], [], _, h => absurd rfl h
+
+theorem any_block {p : UInt8 → Bool} (hp : p 95 = false) {xs : List Bytes} (h : ∀ r ∈ xs, ∀ x ∈ r, p x = false) :
+    (joinWith [95] xs).any p = false := by
+  rw [any_joinWith_of_not_sep p hp]; exact any_any_false h
+
+/-- the body of `snakeIdent` contains neither `c` when `c` is not a letter and not `_` -/
+theorem contains_body_false {c : UInt8} (hc : isAlpha c = false) (h95 : ((95 : UInt8) == c) = false)
+    {xs ys zs : List Bytes} (ha : AlphaWords (xs ++ ys ++ zs)) (n1 n2 : Nat) :
+    contains (joinWith [95] xs ++ List.replicate n1 95 ++ joinWith [95] ys ++ List.replicate n2 95 ++ joinWith [95] zs) c = false := by
+  have hw : ∀ {l : List Bytes}, (∀ r ∈ l, r ∈ xs ++ ys ++ zs) → (joinWith [95] l).any (· == c) = false := by
+    intro l hl
+    apply any_block h95
+    intro r hr x hx
+    exact alpha_ne_sep hc ha r (hl r hr) x hx
+  have hr : ∀ n, (List.replicate n (95 : UInt8)).any (· == c) = false := by
+    intro n
+    induction n with
+    | zero => rfl
+    | succ k ih => simp only [List.replicate_succ, List.any_cons, h95, ih, Bool.or_self]
+  simp only [contains, List.any_append, hw (l := xs) (fun r hr => by simp [hr]), hw (l := ys) (fun r hr => by simp [hr]),
+    hw (l := zs) (fun r hr => by simp [hr]), hr, Bool.or_self]
 
 end Compound
